@@ -54,6 +54,11 @@ def instances(tier):
             out.append(('fork', NAMED['fork'], dict(fam=fam, T=2, ne=True, width=1, **NOSYM), ops_for(2, ['nbr']), {}))
             out.append(('tri', NAMED['tri'], dict(fam=fam, T=2, ne=False, **NOSYM), ops_for(2, ['edges', 'values_all']), {}))
         out.append(('line2', NAMED['line2'], dict(fam='simple_n', T=2, ne=True, **MD), ops_for(2, ['values_all', 'nodes']), {}))
+        # another interpreter process: the entries hash differently, so every set of entries (prev, prev_other, ...) iterates differently
+        for fam in ('simple', 'dist'):
+            for k in (1, 2, 3):
+                out.append(('lasso', NAMED['lasso'], dict(fam=fam, T=2, ne=True, **NOSYM), [('match', 2), ('hashsalt', k), ('new', {}), ('match', 2)], {}))
+            out.append(('tri', NAMED['tri'], dict(fam=fam, T=2, ne=True, **NOSYM), [('match', 2), ('hashsalt', 1), ('new', {}), ('match', 2)], {}))
         out.append(('star', NAMED['star'], dict(fam='simple_n', T=2, ne=False, width=1, **NOSYM), ops_for(2, ['nbr']), {}))
     else:
         gs = [x for x in library(3, named=('fork', 'oneway4', 'star')) if len([1 for u in x[1] for v in x[1][u]]) <= 6]
@@ -166,7 +171,7 @@ def main(tier):
     kres = run_instances(run_instance, steps + [('prune_order', n, W, t) for n in ((3,) if tier == 'quick' else (3, 4)) for W in range(1, n) for t in (False, True)])
     res = list(kres) + gabs.run_all(rep, run_instance, instances(tier), budget, 16 * (100 if tier == 'quick' else 900))
     rep.bounds = dict(graphs="oneway3, oneway4, line2, fork, tri, star" if tier == 'quick' else "all digraphs <=3 nodes, fork, oneway4, star",
-                      T="2..3", orders="arbitrary permutation of: values_all() iteration (stands for every PYTHONHASHSEED), edge/node listing of the spatial query, neighbour listing per node",
+                      T="2..3", orders="re-salted hash of the lattice entries (3 salts; stands for other PYTHONHASHSEED values on sets other than values_all); arbitrary permutation of: values_all() iteration (stands for every PYTHONHASHSEED), edge/node listing of the spatial query, neighbour listing per node",
                       config="max_dist symbolic (early stop reachable) or width 1 (tie extension reachable); non-emitting on/off")
     rep.outside = ["rounding", "graphs/traces beyond the bound", "dictionary insertion order of the lattice layers beyond what the listing orders induce"]
     rep.assumptions = ["LatticeColumn.values_all replaced by an order-parametrised stub (hash order is a subset of all orders)", "AbsMap contract"]
